@@ -764,31 +764,32 @@ func c08R2(c *Ctx, r *Report, rule string) {
 
 func c08R3(c *Ctx, r *Report, rule string) {
 	r.rule(rule, "pooled matching buffers: (a) where a buffer is taken from bufPool and returned in the same function without being handed to a Connection, no view of it is stored, returned or sent; (b) where it is handed to WrapConnection, bufPool.Put happens under exactly the guard of the connection's Close", 3)
-	putID, getID := "(*sync.Pool).Put", "(*sync.Pool).Get"
+	isPut := func(ci ssa.CallInstruction) bool {
+		kind, pool, _ := poolOp(ci)
+		return kind == "put" && pool != nil && globalName(pool) == "layer4.bufPool"
+	}
 	for _, fn := range c.Funcs {
 		name := fname(fn)
 		var gets []*ssa.Call
 		var puts []ssa.CallInstruction
 		collect := func(f *ssa.Function) {
 			for _, ci := range callsIn(f) {
-				isBuf := func() bool {
-					if len(ci.Common().Args) == 0 {
-						return false
-					}
-					g, ok := ci.Common().Args[0].(*ssa.Global)
-					return ok && globalName(g) == "layer4.bufPool"
+				kind, pool, _ := poolOp(ci)
+				if pool == nil || globalName(pool) != "layer4.bufPool" {
+					continue
 				}
-				switch calleeID(ci) {
-				case getID:
-					if call, ok := ci.(*ssa.Call); ok && isBuf() && f == fn {
+				switch kind {
+				case "get":
+					if call, ok := ci.(*ssa.Call); ok && f == fn {
 						gets = append(gets, call)
 					}
-				case putID:
-					if isBuf() {
-						puts = append(puts, ci)
-					}
+				case "put":
+					puts = append(puts, ci)
 				}
 			}
+		}
+		if poolGetter(fn) != nil {
+			continue // a wrapper that only hands out what it took from the pool: its callers carry the obligations
 		}
 		collect(fn)
 		for _, d := range deferredCalls(fn) {
@@ -856,13 +857,13 @@ func c08R3(c *Ctx, r *Report, rule string) {
 				return g
 			}
 			for _, d := range deferredCalls(fn) {
-				if calleeID(d) == putID {
+				if isPut(d) {
 					foundPut = true
 					putGuard = []string{}
 				}
 				if cl := closureOf(d.Call.Value); cl != nil {
 					for _, ci := range callsIn(cl) {
-						if calleeID(ci) == putID {
+						if isPut(ci) {
 							foundPut = true
 							putGuard = guardOf(ci)
 						}
